@@ -37,7 +37,8 @@ type Job struct {
 	Race     bool      `json:"race,omitempty"`
 	Mode     string    `json:"mode,omitempty"` // "" dfs | "replay"
 	Choices  []int     `json:"choices,omitempty"`
-	Aux      string    `json:"aux,omitempty"` // property-specific
+	Aux      string    `json:"aux,omitempty"` // property-specific (name of the sequential specification)
+	Tier     string    `json:"tier,omitempty"`
 }
 
 type ViolReport struct {
@@ -48,6 +49,10 @@ type ViolReport struct {
 	Trace    []string  `json:"trace,omitempty"`
 	Events   []string  `json:"events,omitempty"`
 	Stable   bool      `json:"reproduced_twice"`
+	// sequential-driver violations: the specification name, its cache configuration and the history
+	SeqName string     `json:"seq_spec,omitempty"`
+	SeqCfg  *Cfg       `json:"seq_cfg,omitempty"`
+	SeqHist []SeqEvent `json:"seq_history,omitempty"`
 }
 
 type JobResult struct {
@@ -80,6 +85,8 @@ type Prop struct {
 	Extra func(x *Exec)
 	// Custom runs a job without the generic scenario machinery (optional, e.g. C12).
 	Custom func(job *Job) *JobResult
+	// Seq returns the specifications of the sequential-driver search (optional).
+	Seq func(tier string) []SeqJob
 	// Describe fills the evidence coverage (rule, assumptions).
 	Rule   string
 	Assume []string
@@ -128,8 +135,17 @@ func main() {
 		os.Exit(doReplay(p, replay))
 	}
 	r := ev.NewRun(id, tier, p.Level)
-	jobs := p.Jobs(tier)
+	var jobs []Job
+	if p.Jobs != nil {
+		jobs = p.Jobs(tier)
+	}
+	if p.Seq != nil {
+		for _, sj := range p.Seq(tier) {
+			jobs = append(jobs, Job{Mode: "seq", Aux: sj.Name, Seconds: sj.Seconds, Bound: -1})
+		}
+	}
 	for i := range jobs {
+		jobs[i].Tier = tier
 		jobs[i].Prop = id
 		if jobs[i].Scenario != nil && jobs[i].Scenario.Threads != nil {
 			jobs[i].Scenario.Number()
@@ -178,7 +194,11 @@ func summarize(p *Prop, r *ev.Run, jobs []Job, results []*JobResult) {
 			r.Violation(v.Key, v.What, v)
 		}
 		if len(res.Sample) > 0 && i%max(1, len(results)/6) == 0 {
-			r.Sample(map[string]any{"scenario": jobs[i].Scenario, "bound": jobs[i].Bound, "default_schedule_trace": res.Sample})
+			if jobs[i].Mode == "seq" {
+				r.Sample(map[string]any{"sequential_spec": jobs[i].Aux, "a_history_at_the_depth_bound": res.Sample})
+			} else {
+				r.Sample(map[string]any{"scenario": jobs[i].Scenario, "bound": jobs[i].Bound, "default_schedule_trace": res.Sample})
+			}
 		}
 	}
 	nontrivial := 0
@@ -481,6 +501,17 @@ func runJob(j *Job) (res *JobResult) {
 		}
 		res.WallS = time.Since(start).Seconds()
 	}()
+	if j.Mode == "seq" {
+		spec := findSeq(p, j.Tier, j.Aux)
+		if spec == nil {
+			return &JobResult{Name: j.name(), Err: "unknown sequential specification " + j.Aux}
+		}
+		r := seqSearch(p, j, spec)
+		for i := range r.Viols {
+			r.Viols[i].SeqName = j.Aux
+		}
+		return r
+	}
 	if p.Custom != nil {
 		return p.Custom(j)
 	}
@@ -637,6 +668,36 @@ func doReplay(p *Prop, path string) int {
 	}
 	if err := json.Unmarshal(b, &f); err != nil {
 		ev.Fatalf("replay: %v", err)
+	}
+	if f.Replay.SeqHist != nil {
+		runtime.GOMAXPROCS(1)
+		spec := findSeq(p, "thorough", f.Replay.SeqName)
+		if spec == nil {
+			ev.Fatalf("replay: unknown sequential specification %q", f.Replay.SeqName)
+		}
+		run := runHistory(spec, f.Replay.SeqHist)
+		fmt.Println("history:", histString(f.Replay.SeqHist))
+		for _, l := range fmtEvents(run.Events) {
+			fmt.Println("   ", l)
+		}
+		var viols []Viol
+		switch run.Outcome {
+		case vsched.Done:
+			viols = spec.Oracle(run)
+		case vsched.Panicked:
+			viols = []Viol{{Key: p.ID + "/panic:" + panicKey(run.Detail), What: firstLine(run.Detail)}}
+		case vsched.Deadlock:
+			viols = []Viol{{Key: p.ID + "/deadlock", What: run.Detail}}
+		}
+		for _, v := range viols {
+			fmt.Printf("violation: %s: %s\n", v.Key, v.What)
+			if v.Key == f.Key {
+				fmt.Printf("VIOLATION property=%s replay=%s\n", p.ID, path)
+				return 1
+			}
+		}
+		fmt.Println("the recorded violation does not occur on this tree")
+		return 0
 	}
 	if f.Replay.Scenario == nil {
 		ev.Fatalf("replay: file has no scenario")
